@@ -39,6 +39,7 @@ type Solver struct {
 	Restarts int
 	bin string
 	Errors int
+	Cancels int // (error "... canceled") answers: the solver own time limit hit outside check-sat; query re-decided in a fresh context
 	broken bool
 	stack []*Term // incremental prefix mode: path-condition terms currently asserted, one push level each
 }
@@ -406,8 +407,15 @@ func (s *Solver) readResultTimed() Result {
 	case r := <-ch:
 		if r == errResult {
 			// an (error ...) line: the context can no longer be trusted (a dropped definition/assertion would make later
-			// answers meaningless) - restart with an empty context and let the fallback decide this query
-			s.Errors++
+			// answers meaningless) - restart with an empty context and let the fallback decide this query.
+			// Output is read at every check-sat, so the error belongs to THIS query's batch: no earlier answer is affected.
+			// A cancellation by the solver's own time limit ("canceled"/"timeout" while asserting or simplifying under load) is
+			// a timeout, not an encoding problem: it is counted separately and does not make the run inconclusive.
+			if le := strings.ToLower(lastSolverErr); strings.Contains(le, "cancel") || strings.Contains(le, "timeout") || strings.Contains(le, "interrupted") || strings.Contains(le, "resource limit") {
+				s.Cancels++
+			} else {
+				s.Errors++
+			}
 			s.cmd.Process.Kill()
 			s.cmd.Wait()
 			ns, err := newSolverMode(s.bin, primaryMs, true)
@@ -449,12 +457,13 @@ func readResultFrom(out *bufio.Reader) Result {
 		case line == "unknown" || line == "timeout":
 			return Unknown
 		case strings.HasPrefix(line, "(error"):
-			if os.Getenv("SYMGO_SHOWERR") != "" {
-				fmt.Println("SOLVER ERROR:", line)
-			}
+			lastSolverErr = line
+			fmt.Println("SOLVER ERROR:", line)
 			return errResult
 		}
 	}
 }
 
 const errResult Result = 99
+
+var lastSolverErr string
